@@ -44,15 +44,15 @@ def main(run):
                               "dates.refrequent, dates.RegularPeriodMixin.to_daily, dates.yy/hh/qq/mm/dd/ii (through eval(repr))"]
     run.bounds["ints"] = ("ymd / python-date / year-segment round trips: all periods of years 1..9998, every position; all ordinals for daily; "
                           "string legs (ISO, SDMX with auto-detection, repr) on 2-year windows at the decade/century/millennium boundaries "
-                          "0009-0011, 0099-0101, 0999-1001, 1999-2001, 9998-9999 and daily windows incl. a leap day; integer periods -12..120; "
-                          "refrequent: every ordered pair of calendar frequencies x 3 positions over years 1..9997 (2023-12-01..2024-03-30 for a daily source, 1995-2004 for a daily target)")
+                          "0009-0011, 0099-0101, 0999-1001, 1999-2001, 9998-9999 and daily windows incl. a leap day; integer periods -12..60; "
+                          "refrequent: every ordered pair of calendar frequencies x 3 positions over years 1..9997 (2024-01-15..2024-03-14 for a daily source, 2019-2021 for a daily target)")
     run.stubs += ["datetime.date and calendar.monthrange inside irispie.dates replaced by a loop-free integer Gregorian calendar "
                   "(xh/calstub.py), validated against the real modules on this run; counterexamples are replayed with the real datetime"]
     run.assumptions += ["CrossHair 'Confirmed over all paths' is taken as exhaustive over the precondition's bound",
                         "each harness has a reachability twin (post: False) that must produce a counterexample"]
     run.outside += ["weekly frequency", "string legs outside the listed windows", "CSV import/export of periods (databoxes/_imports, _exports: file I/O)",
                     "compact strings"]
-    timeout = 90 if run.tier == "quick" else 240
+    timeout = 150 if run.tier == "quick" else 300
     xhrun.run_harness(run, HARNESS, select=_select(run.tier), timeout=timeout, twin_timeout=60, finding_prefix="dates:")
     run.extra["exhaustive"] = True
     run.extra["rule"] = ("one evaluation = one CrossHair condition (harness function or its reachability twin) explored over all paths within its "
